@@ -129,14 +129,14 @@ def crash_site(err):
     frames = []
     for m in re.finditer(r"#\d+ 0x[0-9a-f]+ in (.+?) (/repo/\S+?):(\d+)", err):
         fn = _clean_fn(m.group(1))
-        if fn and fn not in frames and not fn.startswith("std::") and "operator()" not in fn and "tag_invoke" not in fn:
+        if fn and fn not in frames and not fn.startswith("std::") and not fn.startswith("_Z") and "operator" not in fn and "tag_invoke" not in fn:
             frames.append(fn)
-        if len(frames) == 2:
+        if len(frames) == (1 if kind == "terminate" else 2):
             break
     return kind + (" in " + " <- ".join(frames) if frames else "")
 
 
-def run_lines(exe, lines, prefix, timeout=900):
+def run_lines(exe, lines, prefix, timeout=900, max_crashes=25):
     """run all lines; the harness may crash on a case (sanitizer abort): record it and continue after it.
     returns (outputs aligned with lines — None for a crashed case, crashes[list of (index, site, stderr)])"""
     out = [None] * len(lines)
@@ -159,7 +159,7 @@ def run_lines(exe, lines, prefix, timeout=900):
             break
         crashes.append((start + n, crash_site(r.stderr), r.stderr[-3000:]))
         start = start + n + 1
-        if len(crashes) >= 25:
+        if len(crashes) >= max_crashes:
             break
     return out, crashes
 
@@ -246,12 +246,20 @@ class EventPart:
         # ---- fault injection (C02): the K-th move of a tracked value throws; only the monitors judge
         nf = self.faults_quick if tier == "quick" else self.faults_thorough
         if nf:
+            # a FIXED corpus (independent of VERIF_SEED), so that the set of failing sites on the unchanged
+            # tree is the same on every run and the known findings recorded for it are complete
+            fg = Gen(random.Random(424242), 10)
+            fbase = [fg.case(f"f{i}") for i in range(nf)]
+            fb_out, fb_cr = run_lines(exe, fbase, "case ")
             flines = []
-            for l, m in list(zip(lines, moves))[:nf]:
+            for l, a in zip(fbase, fb_out):
+                if a is None or " # moves=" not in a:
+                    continue
+                m = int(a.rpartition(" # moves=")[2])
                 for k in range(1, min(m, 10) + 1):
                     flines.append(f"{l} | throw={k}")
             try:
-                fout, fcr = run_lines(exe, flines, "case ")
+                fout, fcr = run_lines(exe, flines, "case ", timeout=2400, max_crashes=1000)
             except subprocess.TimeoutExpired:
                 fout, fcr = [], []
                 verdict.add(f"{self.name}: fault harness timeout", "fault-injection run timed out", dict(stream=self.name), found_input=False)
